@@ -72,7 +72,9 @@ def run(ctx):
     for i, c in enumerate(cases):
         if i % 3 == 0 and not c["malformed"]:
             c["round"] = rng.choice(["default", 0.5, 1.0, 3.0, 1e-3])
-    impl_in = [dict({"fn": "pexpr", "e": exprs.p_json(c["e"]), "keys": c["keys"], "angles": [hexf(a) for a in c["angles"]]},
+    for c in cases:
+        c["pad"] = [rng.randint(0, 3), rng.randint(0, 3)]
+    impl_in = [dict({"fn": "pexpr", "e": exprs.p_json(c["e"]), "keys": c["keys"], "angles": [hexf(a) for a in c["angles"]], "aligned_pad": c["pad"]},
                     **({"round_zeros": (c["round"] if c["round"] == "default" else hexf(c["round"]))} if "round" in c else {})) for c in cases]
     impl = run_impl(impl_in)
     lines = []
@@ -132,6 +134,16 @@ def run(ctx):
                 break
         if bad_ev:
             ctx.fail("history", c, bad_ev)
+            continue
+        # alignment to a wider window of the same parity: zeros, the stored coefficients, zeros
+        al = ro.get("aligned_pad")
+        if al is None:
+            ctx.fail("history", c, "aligned(dmin - 2i, dmax + 2j) raised or returned nothing for i, j = %s" % c["pad"])
+            continue
+        want_al = [Fraction(0)] * c["pad"][0] + ([fr(x) for x in ro["coefs"]] if not ro["isz"] else [Fraction(0)]) + [Fraction(0)] * c["pad"][1]
+        if [fr(x) for x in al] != want_al:
+            ctx.fail("history", c, "aligned(dmin - %d, dmax + %d) = %s, expected the stored coefficients padded with %d / %d zeros"
+                     % (2 * c["pad"][0], 2 * c["pad"][1], [float(fr(x)) for x in al][:10], c["pad"][0], c["pad"][1]))
             continue
         # round_zeros(thresh): exactly the coefficients of magnitude below the threshold become 0, nothing else changes,
         # and norm / eval read afterwards are those of the rounded polynomial
